@@ -231,7 +231,10 @@ pub struct Rans64Encoder<P: ParallelVariant> {
 impl<P: ParallelVariant> Rans64Encoder<P> {
     /// Create encoder from symbol frequencies
     pub fn new(frequencies: &[u32; 256]) -> Result<Self> {
-        let total_freq: u32 = frequencies.iter().sum();
+        let total_freq: u32 = frequencies
+            .iter()
+            .try_fold(0u32, |acc, &f| acc.checked_add(f))
+            .ok_or_else(|| ZiporaError::invalid_data("Symbol frequencies overflow u32"))?;
         if total_freq == 0 {
             return Ok(Self {
                 symbols: [Rans64Symbol::new(0, 0); 256],
